@@ -1101,3 +1101,9 @@ Qed.
 Theorem gen_expires_last h p L t i b d g2 g3 V : t_val t = Some (g2, g3, V) -> t_is_exp t = true ->
   fb_expires (finW h d (t_apply p (i + nnat (length (its_bytes L))) t (its_state p i L b))) = expires_of V.
 Proof. intros Hv He. cbn [finW fb_expires]. rewrite t_apply_expires, He, Hv. reflexivity. Qed.
+
+(* a parameter named q hands its value text to set_q (whose result is described in QSpec.v) *)
+Theorem t_apply_q p i t b g2 g3 V : t_val t = Some (g2, g3, V) ->
+  eqb_nocase (t_name t) str_tag = false -> eqb_nocase (t_name t) str_expires = false -> eqb_nocase (t_name t) str_q = true ->
+  t_apply p i t b = pclr (set_q V (W b (st_newparam p) (t_a i t) (t_e i t) (t_c i t) (t_d i t) (prm1 (fb_params b) (t_a i t)))).
+Proof. intros Hv H1 H2 H3. unfold t_apply. rewrite Hv. unfold apply_param. rewrite H1, H2, H3. reflexivity. Qed.
